@@ -117,6 +117,8 @@ def run(run: core.Run) -> int:
     try:
         cfgs = [Cfg(flat=True, reader_shaped=True, max_stmts=2, max_routines=1), Cfg(flat=True, reader_shaped=True, max_stmts=3, max_routines=2),
                 Cfg(flat=True, reader_shaped=True, max_stmts=5, max_routines=2), Cfg(flat=True, reader_shaped=True, max_stmts=3, max_routines=3, coro=True)]
+        for c_ in cfgs:
+            c_.with_halt = 0.15      # `with (actor X) { end; }` is a plain with-block statement: behind a context op nothing stops the routine
         sets = dc.routine_sets_from_programs(run, pool, n, cfgs)
         sets = c02.wf_filter(sets, drv, jobs)
         for i, s_ in enumerate(sets):
